@@ -558,6 +558,9 @@ func rulePEEK1(c *Ctx) {
 	// needsZero: helpers that assign prevEnd without resetting the peek cache themselves;
 	// every call to one must happen where peekPos is known to be zero.
 	needsZero := map[*types.Func]bool{}
+	// resetsPeek: private helpers that leave peekPos == 0 on every return (the cache reset moved into them)
+	resetsPeek := map[*types.Func]bool{}
+	exitNotZero := map[*FuncInfo]bool{}
 	count := true
 	analyse := func(f *FuncInfo, entryZero tri) (badErr, badEnd string, readsErr, storesEnd bool) {
 		info := f.Info()
@@ -647,11 +650,18 @@ func rulePEEK1(c *Ctx) {
 				if s.pending && badErr == "" {
 					badErr = "returns at " + p.Position(x.Pos()) + " after taking the cached peekErr without clearing it"
 				}
+				if s.zero != triYes {
+					exitNotZero[f] = true
+				}
 				return nil
 			}
 			// calls that reset or set the cache
 			for _, call := range CallsIn(n) {
 				if cf := Callee(info, call); cf != nil {
+					if resetsPeek[cf] {
+						s.zero = triYes
+						continue
+					}
 					if needsZero[cf] && s.zero != triYes && badEnd == "" {
 						badEnd = "prevEnd assigned through " + cf.Name() + " at " + p.Position(call.Pos()) + " on a path where peekPos is not known to be zero (a stale peek result would survive the read)"
 					}
@@ -696,6 +706,10 @@ func rulePEEK1(c *Ctx) {
 			}
 			for _, call := range CallsIn(e) {
 				if cf := Callee(info, call); cf != nil {
+					if resetsPeek[cf] {
+						s.zero = triYes
+						continue
+					}
 					qn := QualName(cf)
 					if qn == "jsontext.(*decoderState).PeekKind" || qn == "jsontext.(*decoderState).CountNextDelimWhitespace" {
 						s.zero = triUnknown
@@ -707,6 +721,34 @@ func rulePEEK1(c *Ctx) {
 		fl.Run(st{zero: entryZero})
 		return
 	}
+	// round 0: unexported helpers that mention peekPos and return with it zero on every path
+	for _, f := range fs {
+		if f.Obj == nil || ast.IsExported(f.Obj.Name()) {
+			continue
+		}
+		mentions := false
+		InspectNoLit(f.Body(), func(n ast.Node) bool {
+			if as, ok := n.(*ast.AssignStmt); ok {
+				for _, l := range as.Lhs {
+					if SelField(f.Info(), l) == peekPos {
+						mentions = true
+					}
+				}
+			}
+			return !mentions
+		})
+		if !mentions {
+			continue
+		}
+		delete(exitNotZero, f)
+		analyse(f, triUnknown)
+		count = false
+		if !exitNotZero[f] && len(callersOf(p, f.Obj)) > 0 {
+			resetsPeek[f.Obj] = true
+		}
+	}
+	count = true
+	nTake, nStore = 0, 0
 	// round 1: find helpers (fail on their own, pass when entered with a reset cache, never touch peekPos)
 	for round := 0; round < 3; round++ {
 		grew := false
